@@ -63,6 +63,7 @@ pub fn judge_pair(prop: &str, data: &[u8]) -> Option<Finding> {
 
 /// The bytes are a tape (little-endian u32 cells) for the property's own structured generator.
 pub fn judge_tape(prop: &str, data: &[u8]) -> Option<Finding> {
+    crate::engine::set_fuzz_mode(true);
     let cells: Vec<u32> = data.chunks(4).map(|c| {
         let mut b = [0u8; 4];
         b[..c.len()].copy_from_slice(c);
